@@ -313,11 +313,13 @@ static void put_item (void *buf, int T, long long i, int64_t v, double fv)
 		}
 }
 /* value generator classes : zeros ramp ext noise lbz<k> tok<base> grid<k> */
-static void gen_values (void *buf, int T, long long n, const char *cls, long long seed, long long param)
+/* values are a function of (class, seed, absolute item index off + i) so that any partition of a sequence yields the same samples */
+static void gen_values (void *buf, int T, long long n, const char *cls, long long seed, long long param, long long off)
 {	rng_s = 0x9E3779B97F4A7C15ULL ^ (uint64_t) (seed * 2654435761LL + 12345) ; rng () ; rng () ;
 	int bits = T == 's' ? 16 : 32 ;
-	for (long long i = 0 ; i < n ; i++)
-	{	int64_t v = 0 ; double fv = 0.0 ;
+	for (long long k = 0 ; k < off ; k++) rng () ;
+	for (long long j = 0 ; j < n ; j++)
+	{	int64_t v = 0 ; double fv = 0.0 ; long long i = off + j ;
 		if (!strcmp (cls, "zeros")) { v = 0 ; fv = 0.0 ; }
 		else if (!strcmp (cls, "ramp")) { v = (seed * 7 + i * 3) ; if (bits == 16) v = (short) v ; else v = (int) (v * 65537) ; fv = ((double) ((i * 37 + seed) % 2048) - 1024.0) / 1024.0 ; }
 		else if (!strcmp (cls, "ext"))
@@ -349,7 +351,7 @@ static void gen_values (void *buf, int T, long long n, const char *cls, long lon
 			fv = k / 1024.0 ; v = bits == 16 ? (short) (k * 31) : (int) (k * 2097151) ;
 			}
 		else { fprintf (stderr, "sfdrive: unknown value class %s\n", cls) ; exit (2) ; }
-		put_item (buf, T, i, v, fv) ;
+		put_item (buf, T, j, v, fv) ;
 		}
 }
 /* explicit values : s/i decimal ; f decimal int32 bit pattern ; d "hi:lo" */
@@ -686,7 +688,7 @@ static void do_write (void)
 	/* exact-size heap block so that ASan sees reads past the supplied region */
 	void *buf = malloc (alloc_items * isz + 1) ; drv_bytes += alloc_items * isz + 1 ;
 	if (T == 'r') { for (long long i = 0 ; i < alloc_items ; i++) ((unsigned char *) buf) [i] = (unsigned char) (5 + ntok > 5 + i ? tokll (5 + (int) i) : 0) ; }
-	else if (ntok > 5 && !strcmp (toks [5], "gen")) gen_values (buf, T, alloc_items, toks [6], tokll (7), tokll (8)) ;
+	else if (ntok > 5 && !strcmp (toks [5], "gen")) gen_values (buf, T, alloc_items, toks [6], tokll (7), tokll (8), ntok > 9 ? tokll (9) : 0) ;
 	else parse_values (buf, T, alloc_items, 5) ;
 	cur_call = "write" ; cur_h = h ;
 	alarm (alarm_secs) ;
@@ -789,12 +791,14 @@ static void end_scenario (void)
 int main (int argc, char **argv)
 {	if (argc < 3) { fprintf (stderr, "usage: sfdrive script events [--from k] [--timeout s]\n") ; return 2 ; }
 	int from = 0 ;
-	for (int i = 3 ; i + 1 < argc ; i += 2)
+	for (int i = 3 ; i + 1 < argc ; i++)
 	{	if (!strcmp (argv [i], "--from")) from = atoi (argv [i + 1]) ;
 		else if (!strcmp (argv [i], "--timeout")) alarm_secs = atoi (argv [i + 1]) ;
 		}
 	FILE *sf = fopen (argv [1], "r") ; if (!sf) { perror (argv [1]) ; return 2 ; }
-	evf = fopen (argv [2], from > 0 ? "a" : "w") ; if (!evf) { perror (argv [2]) ; return 2 ; }
+	int append = 0 ;
+	for (int i = 3 ; i < argc ; i++) if (!strcmp (argv [i], "--append")) append = 1 ;
+	evf = fopen (argv [2], (from > 0 || append) ? "a" : "w") ; if (!evf) { perror (argv [2]) ; return 2 ; }
 	setvbuf (evf, NULL, _IOFBF, 1 << 20) ;
 	/* the library prints diagnostics with printf in a few places : give stdio static buffers so that its lazily
 	** allocated buffers do not show up in the heap ledger */
